@@ -45,6 +45,7 @@ def _on_alarm(signum, frame):
 
 
 STEP_WATCHDOG_S = 20.0
+RUN_WALL_CAP_S = 15.0
 SHRINK_WATCHDOG_S = 5.0
 
 
@@ -124,8 +125,13 @@ def simulate(prop, cfg, ops=None, known=(), digest=False, want_trace=False, stat
     i = 0
     try:
         c = out = None
+        t_run = REAL_MONO()
         while i < nsteps:
             c = out = None          # nothing of the previous step keeps node objects alive
+            if ops is None and i % 32 == 31 and REAL_MONO() - t_run > RUN_WALL_CAP_S:
+                # a generated history that has become this expensive is cut short (never a replay)
+                res.probes["runs_cut_short_by_wall_cap"] = 1
+                break
             V = View(W, pre)
             if ops is None:
                 op = propose(rng, cfg, weights, W, pre, V)
